@@ -375,5 +375,8 @@ PROPS["C17"]["explanation"] += " (OPENINIT) Hopen stores the caching flag and cl
 PROPS["C10"]["rules"] = PROPS["C10"]["rules"] + [rules_attr.rule_dim_dirty]
 PROPS["C10"]["explanation"] += " (DIMDIRTY) renaming a dimension or making it share an existing one sets NC_HDIRTY on every non-failing path."
 
+PROPS["C03"]["rules"] = PROPS["C03"]["rules"] + [rules_sd.rule_presize_condition]
+PROPS["C03"]["explanation"] += " (SETLEN) the test that decides whether a data element must be pre-sized for no-fill writes looks at the file (no data element yet), not only at the per-session `created` flag."
+
 NOT_APPLICABLE = {}
 
